@@ -53,6 +53,9 @@ def units(tier, seed):
                 if weights in ([1, 1, 2], [2, 1, 1]) and size in (4, 5):
                     us.append({"kind": "gp", "weights": weights, "size": size, "minimize": minimize, "order": "elitism-last",
                                "max_dev": 2 if tier == "quick" else 3, "max_execs": 600 if tier == "quick" else 8000})
+    # an input population larger than the requested size (an over-producing initialiser, a shrinking population size)
+    for minimize in (False, True):
+        us.append({"kind": "oversized", "minimize": minimize})
     # the elite share follows the weights in force, also when they change on a live step object
     for mode in ("reassign", "setitem", "randomize"):
         for minimize in (False, True):
@@ -387,7 +390,66 @@ def run_reweighted(unit) -> UnitResult:
     return r
 
 
+def run_oversized(unit) -> UnitResult:
+    """ParallelStep / ElitismStep asked for k individuals out of n > k: the elite is taken from the WHOLE input."""
+    import math
+
+    r = UnitResult()
+    minimize = unit["minimize"]
+    rep = StubRepresentation(2)
+    for weights in ([1, 1, 1], [2, 1, 1], [1, 0, 3], [3, 1, 0], [5, 5, 90]):
+        for n in (3, 4, 6, 10, 25):
+            for k in sorted({1, 2, 3, n // 2, n - 1} - {0}):
+                if k >= n:
+                    continue
+                for order in ("best-last", "best-first", "best-middle"):
+                    problem = SingleObjectiveProblem(lambda p: float(p.v), minimize=minimize)
+                    vals = list(range(n))  # distinct fitness values
+                    goodness = [(-v if minimize else v) for v in vals]
+                    ranked = sorted(range(n), key=lambda i: goodness[i])  # worst .. best
+                    if order == "best-first":
+                        ranked = ranked[::-1]
+                    elif order == "best-middle":
+                        ranked = ranked[: n // 2][::-1] + ranked[n // 2:][::-1]
+                    inds = []
+                    for i in ranked:
+                        ind = Individual(rep._new(0), rep)
+                        ind.genotype.v = vals[i]
+                        inds.append(ind)
+                    ev = SequentialEvaluator()
+                    for form in ("list", "iterator"):
+                        step = ParallelStep([ElitismStep(), NoveltyStep(), GenericMutationStep(1)], list(weights))
+                        w = {"unit": unit, "weights": weights, "n": n, "k": k, "order": order, "form": form}
+                        r.executions += 1
+                        try:
+                            out = list(step.apply(problem, ev, rep, ExhaustiveSource(()), list(inds) if form == "list" else iter(list(inds)), k, 1))
+                        except Exception as e:  # noqa
+                            r.count("run_raised_or_capped(other properties' business)")
+                            continue
+                        share = weights[0] * k / sum(weights)
+                        g = max(0, math.ceil(share - 0.5 - 1e-9))
+                        if g == 0:
+                            continue
+                        r.nontrivial += 1
+                        r.count("oversized_cases_with_an_elite_slot")
+                        surv = []
+                        for o in out:
+                            if any(o is i for i in inds) and all(o is not x for x in surv):
+                                surv.append(o)
+                        kept = sorted((o.genotype.v for o in surv), reverse=not minimize)[:g]
+                        top = sorted(vals, reverse=not minimize)[:g]
+                        if kept != top:
+                            r.add_violation(Violation(PROP, "ParallelStep.apply", "elite-not-from-whole-input", {"order": order, "form": form}, w,
+                                                      f"weights {weights}: {k} requested out of {n} individuals ({order}, {form}): elitism's share guarantees {g} "
+                                                      f"slot(s); best of the input {top}, surviving input individuals {sorted(o.genotype.v for o in surv)}"))
+    r.states = 5
+    r.samples.append({"oversized": True, "minimize": minimize})
+    return r
+
+
 def run_unit(unit) -> UnitResult:
+    if unit["kind"] == "oversized":
+        return run_oversized(unit)
     if unit["kind"] == "reweighted":
         return run_reweighted(unit)
     return {"topk": run_topk, "gp": run_gp, "topk-multi": run_topk_multi, "simplegp": run_simplegp}[unit["kind"]](unit)
